@@ -101,6 +101,15 @@ func (c *Ctx) Ite(cond, a, b *Term) *Term {
 	if cond.Op == ONot {
 		return c.Ite(cond.Args[0], b, a)
 	}
+	// ite(c, zext(x), zext(y)) = zext(ite(c, x, y)) (constants with clear high
+	// bits count as zero-extended): keeps multiplexers over a register file at
+	// the register's own width whatever width the reader widened the cells to.
+	if a.Sort.K == KBV && a.Sort.W <= 64 {
+		if n := zextPair(a, b); n > 0 {
+			iw := a.Sort.W - n
+			return c.Zext(c.Ite(cond, c.lowPart(a, iw), c.lowPart(b, iw)), n)
+		}
+	}
 	// ite(c, x, ite(c, y, z)) = ite(c, x, z)
 	if b.Op == OIte && b.Args[0] == cond {
 		return c.Ite(cond, a, b.Args[2])
@@ -112,12 +121,40 @@ func (c *Ctx) Ite(cond, a, b *Term) *Term {
 }
 
 // Eq is structural SMT equality (for FP: NaN = NaN, +0 != -0). Use FEq for IEEE.
+// zextPair reports the common extension amount n when both terms are
+// zero-extensions by n bits (or one is and the other is a constant that fits).
+func zextPair(a, b *Term) int {
+	n := 0
+	switch {
+	case a.Op == OZext && b.Op == OZext && a.P1 == b.P1:
+		n = a.P1
+	case a.Op == OZext && b.IsConst() && b.Hi == 0 && b.Val>>uint(a.Sort.W-a.P1) == 0:
+		n = a.P1
+	case b.Op == OZext && a.IsConst() && a.Hi == 0 && a.Val>>uint(b.Sort.W-b.P1) == 0:
+		n = b.P1
+	}
+	return n
+}
+
+func (c *Ctx) lowPart(a *Term, w int) *Term {
+	if a.Op == OZext {
+		return a.Args[0]
+	}
+	return c.Const(w, a.Val)
+}
+
 func (c *Ctx) Eq(a, b *Term) *Term {
 	if a.Sort != b.Sort {
 		panic(fmt.Sprintf("sym.Eq: sort mismatch %v %v (%v, %v)", a.Sort, b.Sort, a, b))
 	}
 	if a == b {
 		return c.True
+	}
+	if a.Op == OZext && b.Op == OZext && a.P1 == b.P1 {
+		return c.Eq(a.Args[0], b.Args[0])
+	}
+	if a.Op == OSext && b.Op == OSext && a.P1 == b.P1 {
+		return c.Eq(a.Args[0], b.Args[0])
 	}
 	if a.IsConst() && b.IsConst() {
 		if a.Sort.K == KFP {
@@ -566,6 +603,18 @@ func (c *Ctx) cmp(op Op, a, b *Term) *Term {
 	}
 	if a == b {
 		return c.Bool(op == OUle || op == OSle)
+	}
+	if a.Op == OZext && b.Op == OZext && a.P1 == b.P1 {
+		if op == OUlt || op == OUle {
+			return c.cmp(op, a.Args[0], b.Args[0])
+		}
+		if op == OSlt {
+			return c.cmp(OUlt, a.Args[0], b.Args[0])
+		}
+		return c.cmp(OUle, a.Args[0], b.Args[0])
+	}
+	if a.Op == OSext && b.Op == OSext && a.P1 == b.P1 {
+		return c.cmp(op, a.Args[0], b.Args[0])
 	}
 	if w <= 64 {
 		// interval reasoning from known bits
